@@ -45,6 +45,15 @@ CHECKS = {
         "by the inductive shape of the VCs. Reference grammars = C++ lexical grammar restricted to the forms the property lists. Trusted: translator (validated every run), z3, CrossHair.",
         "DESIGN.md 3/C08",
     ),
+    "C19": (
+        "model_checking",
+        "CrossHair (z3 strings) symbolic execution of the real _gcc_filter / _pcpp_filter / _msvc_filter and of the depfile writer with symbolic file names and lazily forked line sequences; name relations found by the solver are replayed through real g++ and pcpp with parse_file",
+        "For all main-file names f and marker names g inside the bound (symbolic strings: suffix, prefix, sub-directory, embedded space relations are found by z3, not enumerated) and all line "
+        "sequences inside the bound, a content line is kept iff the most recent marker names exactly f; the depfile entries un-escape to exactly the dependency names. 'Confirmed over all paths' per shard.",
+        "Bound: |f|<=3, |g|<=4 (quick) / 4, 5 (thorough) over the alphabet {a,b,/,.,space}; 2 / 3 lines after the first marker; one symbolic dependency name <=2 / 3 chars incl. backslash and space. "
+        "io.StringIO, open and pcpp are stubbed inside the traced harnesses; MSVC is decided at filter level only (cl.exe not installed). CrossHair's negative-slice bug is patched in the runner (vf/chrun.py).",
+        "DESIGN.md 3/C19",
+    ),
 }
 
 NOT_YET = "no check landed yet in this build (planned engine and bounds: DESIGN.md section 3); not claimed until the check runs green"
